@@ -4,6 +4,9 @@
 package golib
 
 import (
+	"bytes"
+	"io"
+	"net/http/httputil"
 	"path/filepath"
 	"strconv"
 	"strings"
@@ -53,6 +56,12 @@ func Do(op string) (string, bool) {
 		return core.HexS(strings.TrimLeft(arg(1), arg(2))), true
 	case "golib.trimspace":
 		return core.HexS(strings.TrimSpace(arg(1))), true
+	case "golib.dechunk":
+		b, err := io.ReadAll(httputil.NewChunkedReader(bytes.NewReader([]byte(arg(1)))))
+		if err != nil {
+			return "none", true
+		}
+		return "some " + core.Hex(b), true
 	case "golib.tolower":
 		return core.HexS(strings.ToLower(arg(1))), true
 	case "golib.hassuffix":
@@ -69,6 +78,48 @@ func AsciiFrom(r *core.Rand, alphabet string, n int) string {
 	}
 	return string(b)
 }
+
+// GenChunked emits chunked-body streams (well-formed with random chunk sizes, then mutated ones).
+func GenChunked(r *core.Rand, n int) []string {
+	var ops []string
+	for i := 0; i < n; i++ {
+		var b bytes.Buffer
+		k := r.Intn(5)
+		for j := 0; j < k; j++ {
+			sz := r.Range(1, 40)
+			if r.Chance(1, 10) {
+				sz = r.Range(200, 5000)
+			}
+			d := r.Bytes(sz)
+			if r.Chance(1, 6) {
+				b.WriteString(r.Pick("0", "00", "") + strconvHex(sz) + r.Pick("", ";ext=1", " ") + "\r\n")
+			} else {
+				b.WriteString(strconvHex(sz) + "\r\n")
+			}
+			b.Write(d)
+			b.WriteString("\r\n")
+		}
+		b.WriteString("0\r\n")
+		if r.Bool() {
+			b.WriteString(r.Pick("\r\n", "X-T: v\r\n\r\n", "GET / HTTP/1.1\r\n"))
+		}
+		s := b.Bytes()
+		if r.Chance(1, 4) && len(s) > 0 { // malformed
+			switch r.Intn(3) {
+			case 0:
+				s = s[:r.Intn(len(s))]
+			case 1:
+				s[r.Intn(len(s))] = byte(r.U64())
+			case 2:
+				s = append(s[:r.Intn(len(s))], s[r.Intn(len(s)):]...)
+			}
+		}
+		ops = append(ops, "golib.dechunk "+core.Hex(s))
+	}
+	return ops
+}
+
+func strconvHex(n int) string { return strconv.FormatInt(int64(n), 16) }
 
 // Gen emits one case of stdlib-model ops.
 func Gen(r *core.Rand, n int) []string {
